@@ -406,6 +406,26 @@ func storeHistories(r *sim.Rng, n int, cw *sim.CaseWriter, outDir string) {
 				s.Reset()
 				st.Ops["speculative-root-then-reset"]++
 			}
+			// sometimes the store is rolled back to an earlier height first: the abandoned blocks must leave no trace in the tree
+			// (the history the model sees is the surviving prefix plus what is committed afterwards)
+			if len(committed) >= 2 && r.Chance(30) {
+				target := 1 + r.Intn(len(committed)-1)
+				if err := s.Rollback(uint64(target)); err != nil {
+					panic(err)
+				}
+				committed = committed[:target]
+				live, pool = map[string]bool{}, nil
+				for _, bb := range committed {
+					for _, h := range bb {
+						if h.del {
+							delete(live, h.bits)
+						} else {
+							live[h.bits] = true
+						}
+					}
+				}
+				st.Ops["rollback-then-commit"]++
+			}
 			batch := write(size(), true)
 			root, err := s.Commit()
 			if err != nil {
